@@ -105,6 +105,36 @@ fn c30_composite_key_mixed_kinds() {
   std::mem::forget(long);
 }
 
+//@ props: C30
+//@ tier: thorough
+//@ timeout: 2700
+//@ funcs: query::aggs::CompositeKey::cmp, CompositeKey::partial_cmp, query::aggs::CompositeKeyPart::cmp
+//@ symbolic: source kinds of 3 key positions; three keys with any 1-byte ASCII term or any f64 bit pattern per part
+//@ bounds: 3 keys x 3 parts (composite aggregations with three sources)
+//@ oracle: antisymmetry, transitivity, Equal iff identical, operators agree with cmp
+#[kani::proof]
+#[kani::unwind(5)]
+fn c30_composite_key_total_order_3_sources() {
+  let k: [bool; 3] = kani::any();
+  let mk = || CompositeKey {
+    parts: vec![any_part(k[0]), any_part(k[1]), any_part(k[2])],
+  };
+  let (a, b, c) = (mk(), mk(), mk());
+  let ab = a.cmp(&b);
+  assert!(b.cmp(&a) == ab.reverse(), "C30: composite key order is not antisymmetric");
+  assert!(a.partial_cmp(&b) == Some(ab) && (a > b) == (ab == Ordering::Greater), "C30: operators disagree with the sort order of composite keys");
+  let same = part_eq(&a.parts[0], &b.parts[0]) && part_eq(&a.parts[1], &b.parts[1]) && part_eq(&a.parts[2], &b.parts[2]);
+  assert!((ab == Ordering::Equal) == same, "C30: composite keys compare Equal without being identical (or the reverse)");
+  if ab != Ordering::Greater && b.cmp(&c) != Ordering::Greater {
+    assert!(a.cmp(&c) != Ordering::Greater, "C30: composite key order is not transitive");
+  }
+  kani::cover!(ab == Ordering::Less && part_eq(&a.parts[0], &b.parts[0]) && part_eq(&a.parts[1], &b.parts[1]), "decided by the third source");
+  kani::cover!(same, "identical keys");
+  std::mem::forget(a);
+  std::mem::forget(b);
+  std::mem::forget(c);
+}
+
 // --------------------------------------------------------------------------
 // C12: merge kernels
 // --------------------------------------------------------------------------
